@@ -26,6 +26,9 @@ class Builder:
         self.tbl = tbl
         self.n = itertools.count(2)
         self.user_ids = {str(tbl.of(c)): c for c in fx.PLAIN + fx.CONTAINER_SUBS}
+        # when a dict (set by the caller for one top-level realisation), equal container descriptors are realised as ONE
+        # object: the same list / dict reachable at several positions of a value, or from several values (aliasing)
+        self.memo = None
         self.funcs = [fx.module_function, (lambda: 0), len, [].append, fx.WithMethods().method,
                       fx.WithMethods.smethod, fx.WithMethods.cmethod, "x".join]
 
@@ -66,6 +69,18 @@ class Builder:
 
     def build(self, d):
         """returns (python object, descriptor with set/dict members in real iteration order)"""
+        if self.memo is not None and isinstance(d, tuple) and d[0] in ("list", "set", "tuple", "dict", "ddict") and len(d) > 1:
+            if d in self.memo:
+                self.shared += 1
+                return self.memo[d]
+            r = self._build(d)
+            self.memo[d] = r
+            return r
+        return self._build(d)
+
+    shared = 0
+
+    def _build(self, d):
         if d == "func":
             return self.funcs[next(self.n) % len(self.funcs)], d
         if d == "genObj":
